@@ -365,6 +365,42 @@ func limiterBody(c *runner.Ctx) {
 			c.Violate("acquire-blocked-without-limiter", "with all %d tokens held, Acquire on a context without limiter did not return within a simulated second", n)
 		}
 	}
+	// a holder that is released while it is temporarily released needs no
+	// token any more: its TemporarilyRelease returns even though the limiter is
+	// saturated by others (who may be waiting for exactly that goroutine)
+	if got == n {
+		rels[0]() // make room for one more holder
+		hctx, hrel := concurrencylimiter.Acquire(probeCtx)
+		if hctx != probeCtx {
+			started, refilled, returned := false, false, false
+			go func() {
+				concurrencylimiter.TemporarilyRelease(hctx, func() {
+					started = true
+					for i := 0; !refilled && i < 5000; i++ {
+						simrt.Sleep(time.Millisecond)
+					}
+					hrel() // released during its own temporary release
+				})
+				returned = true
+			}()
+			for i := 0; !started && i < 5000; i++ {
+				simrt.Sleep(time.Millisecond)
+			}
+			// take the token the holder gave back: the limiter is saturated again
+			go func() {
+				rctx, rel := concurrencylimiter.Acquire(probeCtx)
+				if rctx != probeCtx {
+					rels[0] = rel
+				}
+				refilled = true
+			}()
+			simrt.Sleep(2 * time.Second)
+			c.Probe("release-during-temporary-release-on-a-saturated-limiter")
+			if refilled && !returned {
+				c.Violate("released-holder-waits-for-a-token", "with all %d tokens held by others, TemporarilyRelease of a holder that was released during it did not return within two simulated seconds", n)
+			}
+		}
+	}
 	probeCancel()
 	for _, r := range rels {
 		r()
